@@ -3,6 +3,7 @@ package main
 // Symbolic execution of go/ssa functions: path enumeration with loops cut at invariants.
 
 import (
+	"os"
 	"fmt"
 	"go/ast"
 	"go/constant"
@@ -72,11 +73,75 @@ func (fr *Frame) clone() *Frame {
 
 func (fr *Frame) lookupName(name string) (nameEntry, bool) {
 	for f := fr; f != nil; f = f.parent {
+		// a variable with a single SSA definition in the whole function is bound to it as soon as it is defined
+		if v, ok := singleDefs(f.fn)[name]; ok {
+			if val, ok2 := f.env[v]; ok2 {
+				return nameEntry{V: val, T: v.Type()}, true
+			}
+		}
 		if ne, ok := f.names[name]; ok {
 			return ne, true
 		}
 	}
 	return nameEntry{}, false
+}
+
+var singleDefCache = map[*ssa.Function]map[string]ssa.Value{}
+
+func singleDefs(fn *ssa.Function) map[string]ssa.Value {
+	if m, ok := singleDefCache[fn]; ok {
+		return m
+	}
+	vals := map[string]map[ssa.Value]bool{}
+	bad := map[string]bool{}
+	for _, b := range fn.Blocks {
+		for _, in := range b.Instrs {
+			d, ok := in.(*ssa.DebugRef)
+			if !ok {
+				continue
+			}
+			id, ok := d.Expr.(*ast.Ident)
+			if !ok {
+				continue
+			}
+			if tv, isVar := d.Object().(*types.Var); !isVar || tv.IsField() {
+				continue
+			}
+			if d.IsAddr {
+				bad[id.Name] = true
+				continue
+			}
+			if c, isConst := d.X.(*ssa.Const); isConst {
+				if c.Value == nil {
+					continue // zero value reported at the declaration
+				}
+				bad[id.Name] = true
+				continue
+			}
+			if _, isParam := d.X.(*ssa.Parameter); isParam {
+				bad[id.Name] = true
+				continue
+			}
+			if vals[id.Name] == nil {
+				vals[id.Name] = map[ssa.Value]bool{}
+			}
+			vals[id.Name][d.X] = true
+		}
+	}
+	out := map[string]ssa.Value{}
+	for n, s := range vals {
+		if bad[n] || len(s) != 1 {
+			continue
+		}
+		for v := range s {
+			if _, isPhi := v.(*ssa.Phi); isPhi {
+				continue
+			}
+			out[n] = v
+		}
+	}
+	singleDefCache[fn] = out
+	return out
 }
 
 type loopInfo struct {
@@ -145,6 +210,9 @@ func (vc *VC) loopsOf(fn *ssa.Function) map[*ssa.BasicBlock]*loopInfo {
 			for b := range li.body {
 				for _, in := range b.Instrs {
 					if _, isDbg := in.(*ssa.DebugRef); isDbg {
+						continue
+					}
+					if _, isPhi := in.(*ssa.Phi); isPhi {
 						continue
 					}
 					p := in.Pos()
@@ -235,7 +303,7 @@ func (vc *VC) verifyFunction(fn *ssa.Function, con *Contract, pkg *packages.Pack
 		vc.runGhost(st, fr, gs, nil, fn.Pos())
 	}
 	// canary: requires must not be contradictory
-	vc.emit(st, &Obligation{Name: vc.oblName(fn, "canary", "requires_satisfiable"), Func: fn.String(), Kind: "canary", Tags: contractTags(con), Expect: "notunsat", Site: vc.pos(fn.Pos())}, "false")
+	vc.canary(st, fr, "requires_satisfiable", fn.Pos())
 	if len(fn.Blocks) == 0 {
 		panic(unsupported("function without body"))
 	}
@@ -530,6 +598,7 @@ func (vc *VC) runBlock(st *State, fr *Frame, b *ssa.BasicBlock, pred *ssa.BasicB
 					vc.checkClause(st, fr, env, "invariant-preserved", inv, "", li.pos)
 				}
 			}
+			vc.checkLoopFrames(st, fr, li, "invariant-preserved")
 			return
 		}
 		// first arrival
@@ -548,7 +617,8 @@ func (vc *VC) runBlock(st *State, fr *Frame, b *ssa.BasicBlock, pred *ssa.BasicB
 				vc.checkClause(st, fr, env, "invariant-entry", inv, "", li.pos)
 			}
 		}
-		// havoc
+		// havoc (with automatic frame invariants for arrays the contract does not allow to change)
+		vc.checkLoopFrames(st, fr, li, "invariant-entry")
 		vc.havocLoop(st, fr, li)
 		fr.seen[b] = true
 		fresh := map[*ssa.Phi]Val{}
@@ -558,8 +628,17 @@ func (vc *VC) runBlock(st *State, fr *Frame, b *ssa.BasicBlock, pred *ssa.BasicB
 		bindPhis(fresh)
 		for phi, v := range fresh {
 			if phi.Comment == "rangeindex" {
-				// -1 <= idx
+				// -1 <= idx < len  (holds by construction of the rangeindex loop)
 				st.assume("(<= (- 1) " + v.(Sc).T + ")")
+				for _, in := range b.Instrs {
+					if bo, ok := in.(*ssa.BinOp); ok && bo.Op == token.LSS {
+						if inc, ok := bo.X.(*ssa.BinOp); ok && inc.X == phi {
+							if lv, ok := fr.env[bo.Y]; ok {
+								st.assume("(< " + v.(Sc).T + " " + lv.(Sc).T + ")")
+							}
+						}
+					}
+				}
 			}
 		}
 		if li.kind == "rangeiter" {
@@ -582,6 +661,7 @@ func (vc *VC) runBlock(st *State, fr *Frame, b *ssa.BasicBlock, pred *ssa.BasicB
 					st.assume(env.evalBool(inv.E))
 				}()
 			}
+			vc.canary(st, fr, fmt.Sprintf("loop%d_invariant_satisfiable", li.ordinal), li.pos)
 		}
 	} else {
 		for phi, v := range phiVals {
@@ -596,6 +676,24 @@ func (vc *VC) runBlock(st *State, fr *Frame, b *ssa.BasicBlock, pred *ssa.BasicB
 
 // havocLoop havocs every heap array the loop body may write.
 func (vc *VC) havocLoop(st *State, fr *Frame, li *loopInfo) {
+	names, allocs := vc.loopArrays(st, fr, li)
+	if allocs {
+		nb := st.fresh("alloc", SInt)
+		st.assume(fmt.Sprintf("(>= %s %s)", nb, st.allocTerm()))
+		st.allocBase = nb
+		st.allocOff = 0
+	}
+	for _, a := range names {
+		sym := st.havocArray(a)
+		st.wellTyped(a, sym, st.allocTerm())
+		if goal := vc.frameFact(st, fr, a, sym); goal != "" {
+			st.assume(goal)
+		}
+	}
+}
+
+// loopArrays computes the heap arrays a loop body may write.
+func (vc *VC) loopArrays(st *State, fr *Frame, li *loopInfo) ([]string, bool) {
 	arrays := map[string]bool{}
 	allocs := false
 	var blocks []*ssa.BasicBlock
@@ -613,15 +711,58 @@ func (vc *VC) havocLoop(st *State, fr *Frame, li *loopInfo) {
 		names = append(names, a)
 	}
 	sort.Strings(names)
-	if allocs {
-		nb := st.fresh("alloc", SInt)
-		st.assume(fmt.Sprintf("(>= %s %s)", nb, st.allocTerm()))
-		st.allocBase = nb
-		st.allocOff = 0
+	return names, allocs
+}
+
+// frameFact: objects allocated before function entry that the contract does not allow to change keep
+// their entry value in array a (an automatically generated, checked, loop invariant).
+func (vc *VC) frameFact(st *State, fr *Frame, a string, sym string) string {
+	con := fr.contract
+	if con == nil || !con.HasMod || strings.HasPrefix(a, "VIS_") {
+		return ""
 	}
+	if _, ok := vc.arrSorts[a]; !ok {
+		return ""
+	}
+	init := a + "!0"
+	if sym == init {
+		return "true"
+	}
+	pol := vc.modPolicyOf(con)[a]
+	if strings.HasPrefix(a, "GG_") {
+		if pol != nil {
+			return ""
+		}
+		return sEq(sym, init)
+	}
+	vc.counter++
+	o := fmt.Sprintf("o!%d", vc.counter)
+	if pol == nil {
+		return fmt.Sprintf("(forall ((%s Int)) (! (=> (and (<= 0 %s) (< %s alloc!0)) (= (select %s %s) (select %s %s))) :pattern ((select %s %s))))", o, o, o, sym, o, init, o, sym, o)
+	}
+	if pol.unrestricted {
+		return ""
+	}
+	env := vc.specEnv(st, fr, nil)
+	env.inOld = true
+	return fmt.Sprintf("(forall ((%s Int)) (! (=> (and (<= 0 %s) (< %s alloc!0) %s) (= (select %s %s) (select %s %s))) :pattern ((select %s %s))))", o, o, o, notInSet(env, o, pol.at), sym, o, init, o, sym, o)
+}
+
+func (vc *VC) checkLoopFrames(st *State, fr *Frame, li *loopInfo, kind string) {
+	if fr.contract == nil || !fr.contract.HasMod {
+		return
+	}
+	names, _ := vc.loopArrays(st, fr, li)
 	for _, a := range names {
-		sym := st.havocArray(a)
-		st.wellTyped(a, sym, st.allocTerm())
+		sym, ok := st.arr[a]
+		if !ok {
+			continue
+		}
+		goal := vc.frameFact(st, fr, a, sym)
+		if goal == "" || goal == "true" {
+			continue
+		}
+		vc.check(st, fr, kind, fmt.Sprintf("loop%d/auto-frame:%s", li.ordinal, a), contractTags(fr.contract), goal, li.pos)
 	}
 }
 
@@ -885,6 +1026,14 @@ func (vc *VC) modArrays(c *Contract, fn *ssa.Function, arrays map[string]bool, a
 
 func (vc *VC) modItemArrays(c *Contract, mi *ModItem) []string {
 	pkg := vc.pkgOf(c.Pkg)
+	if mi.Kind == "gglobal" {
+		g, ok := vc.gglobals[mi.Path]
+		if !ok {
+			panic(specErr{fmt.Sprintf("%s:%d: modifies: unknown ghost global %s", c.File, mi.Line, mi.Path)})
+		}
+		vc.arrSorts["GG_"+g.Name] = ghostSort(g.GoTyp)
+		return []string{"GG_" + g.Name}
+	}
 	nt, err := vc.resolveNamed(mi.Type, pkg)
 	if err != nil {
 		panic(specErr{fmt.Sprintf("%s:%d: modifies: %v", c.File, mi.Line, err)})
@@ -898,6 +1047,13 @@ func (vc *VC) modItemArrays(c *Contract, mi *ModItem) []string {
 	stt, ok := nt.Underlying().(*types.Struct)
 	if !ok {
 		panic(specErr{fmt.Sprintf("%s:%d: modifies: %s is not a struct", c.File, mi.Line, mi.Type)})
+	}
+	if mi.Path == "*" && mi.Kind == "field" {
+		for _, l := range vc.leaves(nt) {
+			n, _ := vc.fieldArr(ownerKey(nt), l.Path, l)
+			out = append(out, n)
+		}
+		return out
 	}
 	var ft types.Type
 	for i := 0; i < stt.NumFields(); i++ {
@@ -1090,6 +1246,12 @@ func (vc *VC) runInstrs(st *State, fr *Frame, b *ssa.BasicBlock, start int) {
 			continue
 		case *ssa.DebugRef:
 			if id, ok := x.Expr.(*ast.Ident); ok {
+				if tv, isVar := x.Object().(*types.Var); !isVar || tv.IsField() {
+					continue
+				}
+				if os.Getenv("GOVC_DEBUG_NAMES") != "" {
+					fmt.Fprintf(os.Stderr, "debugref %s = %s (%T) in %s at %s\n", id.Name, x.X.Name(), x.X, fr.fn.Name(), vc.pos(id.Pos()))
+				}
 				if val, ok2 := fr.env[x.X]; ok2 {
 					fr.names[id.Name] = nameEntry{V: val, T: x.X.Type(), IsAddr: x.IsAddr}
 				} else if c, ok3 := x.X.(*ssa.Const); ok3 {
@@ -1496,19 +1658,10 @@ func (vc *VC) sliceOp(st *State, fr *Frame, x *ssa.Slice) Val {
 		}
 		// bounds: 0 <= lo <= hi <= len (cap is not modelled; hi <= len is the stricter, safe check)
 		vc.check(st, fr, "safety", "slice-bounds", vc.safetyTags(fr), fmt.Sprintf("(and (<= 0 %s) (<= %s %s) (<= %s %s))", lo, lo, hi, hi, sl.Len), x.Pos())
-		off := sl.Off
-		if lo != "0" {
-			if off == "0" {
-				off = lo
-			} else {
-				off = "(+ " + sl.Off + " " + lo + ")"
-			}
+		if lo == "0" {
+			return SliceV{Base: sl.Base, Off: "0", Len: hi}
 		}
-		ln := hi
-		if lo != "0" {
-			ln = "(- " + hi + " " + lo + ")"
-		}
-		return SliceV{Base: sl.Base, Off: off, Len: ln}
+		return vc.viewCopy(st, sl, lo, "(- "+hi+" "+lo+")", xt.Elem())
 	case *types.Pointer:
 		arr := xt.Elem().Underlying().(*types.Array)
 		base := vc.scalar(st, fr, x.X).T
@@ -1517,11 +1670,10 @@ func (vc *VC) sliceOp(st *State, fr *Frame, x *ssa.Slice) Val {
 		} else {
 			hi = fmt.Sprint(arr.Len())
 		}
-		ln := hi
-		if lo != "0" {
-			ln = "(- " + hi + " " + lo + ")"
+		if lo == "0" {
+			return SliceV{Base: base, Off: "0", Len: hi}
 		}
-		return SliceV{Base: base, Off: lo, Len: ln}
+		return vc.viewCopy(st, SliceV{Base: base, Off: "0", Len: fmt.Sprint(arr.Len())}, lo, "(- "+hi+" "+lo+")", arr.Elem())
 	case *types.Basic:
 		// substring: abstracted
 		return st.freshVal("substr", x.Type())
@@ -1652,6 +1804,21 @@ func (vc *VC) fireEvent(st *State, fr *Frame, ev *Event, extra map[string]nameEn
 			panic(r)
 		}
 	}()
+	if ev.In != "" {
+		fn, err := vc.resolveFunc(ev.In, vc.pkgOf(ev.Pkg))
+		if err != nil {
+			panic(specErr{"event 'in' function: " + err.Error()})
+		}
+		found := false
+		for f := fr; f != nil; f = f.parent {
+			if f.fn == fn {
+				found = true
+			}
+		}
+		if !found {
+			return
+		}
+	}
 	if ev.When != nil {
 		env := vc.specEnv(st, fr, extra)
 		c := env.evalBool(ev.When)
@@ -1849,6 +2016,7 @@ func (vc *VC) doReturn(st *State, fr *Frame, ret *ssa.Return) {
 		}
 	}
 	st.trail = append(st.trail, "return at "+vc.pos(ret.Pos()))
+	vc.canary(st, fr, "some_return_reachable", fr.fn.Pos())
 	for _, gs := range con.AtReturn {
 		vc.runGhost(st, fr, gs, extra, ret.Pos())
 	}
@@ -1865,12 +2033,7 @@ func (vc *VC) checkFrame(st *State, fr *Frame, pos token.Pos) {
 	if !con.HasMod {
 		return
 	}
-	allowed := map[string]*ModItem{}
-	for _, mi := range con.Modifies {
-		for _, a := range vc.modItemArrays(con, mi) {
-			allowed[a] = mi
-		}
-	}
+	allowed := vc.modPolicyOf(con)
 	var names []string
 	for a := range st.written {
 		names = append(names, a)
@@ -1885,8 +2048,7 @@ func (vc *VC) checkFrame(st *State, fr *Frame, pos token.Pos) {
 		if cur == init {
 			continue
 		}
-		sortA := vc.arrSorts[a]
-		mi, ok := allowed[a]
+		pol, ok := allowed[a]
 		vc.counter++
 		o := fmt.Sprintf("o!%d", vc.counter)
 		if !ok {
@@ -1895,25 +2057,94 @@ func (vc *VC) checkFrame(st *State, fr *Frame, pos token.Pos) {
 			if strings.HasPrefix(a, "GG_") {
 				goal = sEq(cur, init)
 			}
-			_ = sortA
 			vc.check(st, fr, "frame", "unmodified:"+a, contractTags(con), goal, pos)
 			continue
 		}
-		if mi.At != nil {
+		if !pol.unrestricted {
 			env := vc.specEnv(st, fr, nil)
 			env.inOld = true
-			var ne []string
-			for _, e := range mi.At {
-				v, _ := env.eval(e)
-				switch x := v.(type) {
-				case Sc:
-					ne = append(ne, sNot(sEq(o, x.T)))
-				case SliceV:
-					ne = append(ne, sNot(sEq(o, x.Base)))
-				}
-			}
-			goal := fmt.Sprintf("(forall ((%s Int)) (=> (and (<= 0 %s) (< %s alloc!0) %s) (= (select %s %s) (select %s %s))))", o, o, o, sAnd(ne...), cur, o, init, o)
+			goal := fmt.Sprintf("(forall ((%s Int)) (=> (and (<= 0 %s) (< %s alloc!0) %s) (= (select %s %s) (select %s %s))))", o, o, o, notInSet(env, o, pol.at), cur, o, init, o)
 			vc.check(st, fr, "frame", "modifies-at:"+a, contractTags(con), goal, pos)
 		}
 	}
+}
+
+// viewCopy models s[lo:hi] with lo != 0 as a fresh read-only backing array whose elements equal the
+// originals (sound while neither alias is written; writes through a view are rejected).
+func (vc *VC) viewCopy(st *State, sl SliceV, lo, ln string, el types.Type) Val {
+	nb := st.newRef()
+	for _, l := range vc.leaves(el) {
+		name, sort := vc.elemArr(typeKey(el), l.Path, l)
+		a := st.array(name, sort)
+		fresh := st.fresh("view", arrSort(SInt, l.Sort))
+		vc.counter++
+		i := fmt.Sprintf("i!%d", vc.counter)
+		st.assume(fmt.Sprintf("(forall ((%s Int)) (! (= (select %s %s) (select (select %s %s) (+ %s %s))) :pattern ((select %s %s))))", i, fresh, i, a, sl.Base, lo, i, fresh, i))
+		st.setArray(name, sort, sStore(a, nb, fresh))
+	}
+	st.views = append(st.views, nb)
+	return SliceV{Base: nb, Off: "0", Len: ln}
+}
+
+type modPolicy struct {
+	unrestricted bool
+	at           []Expr
+}
+
+// modPolicyOf: per heap array, what the contract allows to change (most permissive item wins).
+func (vc *VC) modPolicyOf(con *Contract) map[string]*modPolicy {
+	out := map[string]*modPolicy{}
+	for _, mi := range con.Modifies {
+		for _, a := range vc.modItemArrays(con, mi) {
+			p := out[a]
+			if p == nil {
+				p = &modPolicy{}
+				out[a] = p
+			}
+			if mi.At == nil {
+				p.unrestricted = true
+			} else {
+				p.at = append(p.at, mi.At...)
+			}
+		}
+	}
+	return out
+}
+
+// notInSet builds the condition "o is none of the objects in at" (at evaluated in env).
+func notInSet(env *SpecEnv, o string, at []Expr) string {
+	var ne []string
+	for _, e := range at {
+		v, _ := env.eval(e)
+		switch x := v.(type) {
+		case Sc:
+			ne = append(ne, sNot(sEq(o, x.T)))
+		case SliceV:
+			ne = append(ne, sNot(sEq(o, x.Base)))
+		case LocV:
+			ne = append(ne, sNot(sEq(o, x.Obj)))
+		default:
+			sfail("modifies at: unsupported object expression %s", e)
+		}
+	}
+	return sAnd(ne...)
+}
+
+// canary records a reachability probe: "false" must NOT be provable here. Probes are grouped; a group passes
+// when at least one of its members is not refuted (some paths are legitimately infeasible).
+func (vc *VC) canary(st *State, fr *Frame, group string, site token.Pos) {
+	top := fr
+	for top.parent != nil {
+		top = top.parent
+	}
+	name := vc.oblName(top.fn, "canary", group)
+	if len(vc.canaries[name]) >= 4 {
+		return
+	}
+	o := &Obligation{Name: name, Func: top.fn.String(), Kind: "canary", Tags: contractTags(top.contract), Expect: "notunsat", Site: vc.pos(site)}
+	saved := vc.obls
+	vc.emit(st, o, "false")
+	vc.obls = saved
+	vc.canaries[name] = append(vc.canaries[name], o)
+	vc.canaryOrder = append(vc.canaryOrder, name)
 }
